@@ -856,7 +856,9 @@ def do_c13():
                 report(f"C13:roundtrip:{sgn}:{nz}:{fe}", "helix built from its own position/momentum/charge/pivot differs", {"par": par, "pivot": p0, "back": back})
         # position / momentum held in single precision (float32 columns, e.g. a slimmed ntuple): the array constructor gives what the object
         # constructor gives from the SAME numbers - in particular the same sign of dr (tolerances at the precision of the input)
-        if i % 6 == 2 and abs(dr) > 0.05 and abs(dr) < 0.5 * abs(ALPHA / kappa):
+        # (only where single precision can tell the direction pivot -> position at all: the rounding of a coordinate, 6e-8 of its size, seen from
+        #  a distance |dr| must stay ten times below the 3e-5 rad at which the constructors call two directions equal)
+        if i % 6 == 2 and abs(dr) > 0.05 and abs(dr) < 0.5 * abs(ALPHA / kappa) and 6e-8 * max(map(abs, [h.position.x, h.position.y] + p0[:2])) < 3e-6 * abs(dr):
             bump("physics-ctor:float32-inputs")
             X = [np.float32(v) for v in (h.position.x, h.position.y, h.position.z)]; M = [np.float32(v) for v in (h.momentum.px, h.momentum.py, h.momentum.pz)]
             ho32 = p3.helix_obj(position=tuple(float(v) for v in X), momentum=tuple(float(v) for v in M), charge=h.charge, pivot=tuple(p0))
